@@ -605,8 +605,16 @@ class DirectionalConvexHull:
         # get normal equations to the hull simplices
         y_normal = self.convex_hull_.equations[:, 0]
 
-        # get vertices_idx of the convex hull
-        directional_facets_idx = np.where(y_normal < 0)[0]
+        # get vertices_idx of the convex hull; facets that are vertical up to rounding
+        # (several samples at one position on the rim of the hull) are not part of
+        # the lower hull, whatever the sign of the rounding noise in their normal
+        scaled_normals = self.convex_hull_.equations[:, :-1] * np.ptp(
+            convex_hull_data, axis=0
+        )
+        vertical = np.abs(scaled_normals[:, 0]) <= 1e-10 * np.linalg.norm(
+            scaled_normals[:, 1:], axis=1
+        )
+        directional_facets_idx = np.where((y_normal < 0) & ~vertical)[0]
         self.directional_simplices_ = self.convex_hull_.simplices[
             directional_facets_idx
         ]
